@@ -224,6 +224,10 @@ impl<T> Pool<T> {
     /// See [`PoolError`] for details.
     pub async fn timeout_get(&self, timeout: Option<Duration>) -> Result<Object<T>, PoolError> {
         let inner = self.inner.as_ref();
+        // Count this caller as waiting for an object (`available` goes
+        // negative if there are more callers than objects) until it got one.
+        let _ = inner.available.fetch_sub(1, Ordering::Relaxed);
+        let waiting = WaitingGuard(&inner.available);
         let permit = match (timeout, inner.config.runtime) {
             (None, _) => inner
                 .semaphore
@@ -254,8 +258,7 @@ impl<T> Pool<T> {
             return Err(PoolError::Closed);
         };
         permit.forget();
-        verif_point!("uget.available");
-        let _ = inner.available.fetch_sub(1, Ordering::Relaxed);
+        std::mem::forget(waiting);
         Ok(Object {
             pool: Arc::downgrade(&self.inner),
             obj: Some(obj),
@@ -417,6 +420,15 @@ struct PoolInner<T> {
     /// [`Future`]: std::future::Future
     available: AtomicIsize,
     semaphore: Semaphore,
+}
+
+/// Counts a caller as waiting for an [`Object`] for as long as it is alive.
+struct WaitingGuard<'a>(&'a AtomicIsize);
+
+impl Drop for WaitingGuard<'_> {
+    fn drop(&mut self) {
+        let _ = self.0.fetch_add(1, Ordering::Relaxed);
+    }
 }
 
 impl<T> PoolInner<T> {
